@@ -1,11 +1,11 @@
 import Blots.Model.ExprPeg
 import Blots.Lemmas.IdentLemmas
 /-
-  Fuel lemmas for the PEG recogniser of `Blots/Model/ExprPeg.lean` (C10, operator fragment):
+  Fuel lemmas for the PEG recogniser of `Blots/Model/ExprPeg.lean` (C10):
     * the result of `exprR` / `tailR` / `operandR` does not depend on the fuel once the fuel is
       enough (`*_mono`),
     * every successful step consumes input (`*_length`),
-    * the fuel `fuelFor cs = 2 * cs.length + 2` the driver passes is always enough
+    * the fuel `fuelFor cs = 8 * cs.length + 8` the driver passes is always enough
       (`fuel_suffices`, `exprR_fuel_suffices`, `exprItems_of_exprR`).
 -/
 namespace Blots.ExprPeg
@@ -149,8 +149,10 @@ theorem wsPlus_length {cs r : List Char} (h : wsPlus cs = some r) : r.length < c
 
 /-! ### operators -/
 
-theorem infixUsage_length {cs : List Char} {rule : String} {r : List Char}
-    (h : infixUsage cs = some (rule, r)) : r.length < cs.length := by
+theorem lamNaturalLits_nonempty : litsNonempty lamNaturalLits = true := by decide +kernel
+
+theorem infixUsage_length {lam : Bool} {cs : List Char} {rule : String} {r : List Char}
+    (h : infixUsage lam cs = some (rule, r)) : r.length < cs.length := by
   simp only [infixUsage] at h
   split at h
   · -- first alternative
@@ -168,7 +170,10 @@ theorem infixUsage_length {cs : List Char} {rule : String} {r : List Char}
           simp only [Option.map_some, Option.some.injEq, Prod.mk.injEq] at hx
           obtain ⟨_, rfl⟩ := hx
           have h1 := layoutPlus_length hr0
-          have h2 := firstRule_length naturalLits_nonempty hr1
+          have h2 : r1.length < r0.length := by
+            cases lam
+            · exact firstRule_length naturalLits_nonempty hr1
+            · exact firstRule_length lamNaturalLits_nonempty hr1
           have h3 := wsPlus_length hw
           omega
       · cases hx
@@ -211,18 +216,6 @@ theorem prefixUsage_length {cs : List Char} {it : PItem} {r : List Char}
       obtain ⟨_, rfl⟩ := h
       exact firstRule_length prefixLits_nonempty hf
 
-theorem postfixOp_length {cs : List Char} {it : PItem} {r : List Char}
-    (h : postfixOp cs = some (it, r)) : r.length < cs.length := by
-  simp only [postfixOp] at h
-  cases hf : firstRule postfixLits cs with
-  | none => rw [hf] at h; cases h
-  | some x =>
-    obtain ⟨rule1, r1⟩ := x
-    rw [hf] at h
-    simp only [Option.map_some, Option.some.injEq, Prod.mk.injEq] at h
-    obtain ⟨_, rfl⟩ := h
-    exact firstRule_length postfixLits_nonempty hf
-
 theorem starItems_length {e : List Char → Option (PItem × List Char)}
     (he : ∀ cs it r, e cs = some (it, r) → r.length ≤ cs.length) (n : Nat) (cs : List Char) :
     (starItems e n cs).2.length ≤ cs.length := by
@@ -238,9 +231,6 @@ theorem starItems_length {e : List Char → Option (PItem × List Char)}
 
 theorem prefixStar_length (cs : List Char) : (prefixStar cs).2.length ≤ cs.length :=
   starItems_length (fun _ _ _ h => Nat.le_of_lt (prefixUsage_length h)) _ _
-
-theorem postfixStar_length (cs : List Char) : (postfixStar cs).2.length ≤ cs.length :=
-  starItems_length (fun _ _ _ h => Nat.le_of_lt (postfixOp_length h)) _ _
 
 /-! ### terms -/
 
@@ -334,12 +324,276 @@ theorem termAtom_length {cs : List Char} {e : Expr} {r : List Char}
             exact plus_length hd
         · cases h
 
+/-! ### layout helpers of `access` / `call_list` -/
+
+theorem skipWs_length (cs : List Char) : (skipWs cs).length ≤ cs.length :=
+  dropWhile_length_le isWs cs
+
+theorem nlStar_length (cs : List Char) : (nlStar cs).length ≤ cs.length :=
+  star_length (fun _ _ h => Nat.le_of_lt (newline_length h)) _ _
+
+theorem trailComma_length (cs : List Char) : (trailComma cs).length ≤ cs.length := by
+  unfold trailComma
+  split
+  · rename_i r0
+    split
+    · rename_i r1 hn
+      have := newline_length hn
+      have := skipWs_length r0
+      simp only [List.length_cons]; omega
+    · exact Nat.le_refl _
+  · exact Nat.le_refl _
+
+theorem callClose_length {cs r : List Char} (h : callClose cs = some r) : r.length < cs.length := by
+  simp only [callClose] at h
+  split at h
+  · rename_i r' hl
+    simp only [Option.some.injEq] at h
+    subst h
+    have h1 := skipWs_length cs
+    have h2 := layoutStar_length (trailComma (skipWs cs))
+    have h3 := trailComma_length (skipWs cs)
+    rw [hl] at h2
+    simp only [List.length_cons] at h2
+    omega
+  · cases h
+
+/-! ### layout helpers of `list` -/
+
+theorem wnAtom_length {cs r : List Char} (h : wnAtom cs = some r) : r.length < cs.length :=
+  orElse_length_lt (fun _ _ => whitespace_length) (fun _ _ => plainNewline_length) h
+
+theorem wnStar_length (cs : List Char) : (wnStar cs).length ≤ cs.length :=
+  star_length (fun _ _ h => Nat.le_of_lt (wnAtom_length h)) _ _
+
+theorem inlineComment_length {cs r : List Char} (h : inlineComment cs = some r) :
+    r.length < cs.length := by
+  simp only [inlineComment] at h
+  cases hl : lit ['/', '/'] cs with
+  | none => rw [hl] at h; cases h
+  | some r0 =>
+    rw [hl] at h
+    simp only [Option.map_some, Option.some.injEq] at h
+    subst h
+    have h2 := commentBody_length r0
+    have h3 := lit_length hl
+    simp only [List.length_cons, List.length_nil] at h3
+    omega
+
+theorem gAtom_length {cs r : List Char} (h : gAtom cs = some r) : r.length < cs.length := by
+  simp only [gAtom] at h
+  split at h
+  · rename_i r0 hc
+    have := inlineComment_length hc
+    have := wnAtom_length h
+    omega
+  · exact wnAtom_length h
+
+theorem hAtom_length {cs r : List Char} (h : hAtom cs = some r) : r.length < cs.length := by
+  simp only [hAtom] at h
+  split at h
+  · rename_i r0 hc
+    simp only [Option.some.injEq] at h
+    subst h
+    exact inlineComment_length hc
+  · exact wnAtom_length h
+
+theorem gapG_length (cs : List Char) : (gapG cs).length ≤ cs.length :=
+  star_length (fun _ _ h => Nat.le_of_lt (gAtom_length h)) _ _
+
+theorem gapH_length (cs : List Char) : (gapH cs).length ≤ cs.length :=
+  star_length (fun _ _ h => Nat.le_of_lt (hAtom_length h)) _ _
+
+theorem itemTrail_length (cs : List Char) : (itemTrail cs).length ≤ cs.length := by
+  unfold itemTrail
+  have := skipWs_length cs
+  split
+  · rename_i r hc
+    have := inlineComment_length hc
+    omega
+  · exact this
+
+/-- what `listClose` skips in front of the closing layout: an optional comma and the blanks /
+    line breaks behind it -/
+def listComma (cs : List Char) : List Char :=
+  match skipWs cs with
+  | ',' :: r => wnStar r
+  | c1 => c1
+
+theorem listClose_eq (cs : List Char) :
+    listClose cs = match gapH (listComma cs) with | ']' :: r => some r | _ => none := rfl
+
+theorem listComma_length (cs : List Char) : (listComma cs).length ≤ cs.length := by
+  unfold listComma
+  have h1 := skipWs_length cs
+  split
+  · rename_i r hs
+    have := wnStar_length r
+    rw [hs] at h1
+    simp only [List.length_cons] at h1
+    omega
+  · exact h1
+
+theorem listClose_length {cs r : List Char} (h : listClose cs = some r) : r.length < cs.length := by
+  rw [listClose_eq] at h
+  split at h
+  · rename_i r' hl
+    simp only [Option.some.injEq] at h
+    subst h
+    have h2 := gapH_length (listComma cs)
+    have h3 := listComma_length cs
+    rw [hl] at h2
+    simp only [List.length_cons] at h2
+    omega
+  · cases h
+
+/-! ### the head of a lambda -/
+
+theorem argumentR_length {cs : List Char} {a : LArg} {r : List Char}
+    (h : argumentR cs = some (a, r)) : r.length < cs.length := by
+  simp only [argumentR] at h
+  split at h
+  · rename_i r0 hid
+    have h0 := identifier_length hid
+    have h1 := skipWs_length r0
+    split at h
+    · rename_i r' hs
+      simp only [Option.some.injEq, Prod.mk.injEq] at h
+      obtain ⟨_, rfl⟩ := h
+      rw [hs] at h1
+      simp only [List.length_cons] at h1
+      omega
+    · simp only [Option.some.injEq, Prod.mk.injEq] at h
+      obtain ⟨_, rfl⟩ := h
+      exact h0
+  · split at h
+    · rename_i r0 hl
+      have h0 := lit_length hl
+      have h1 := skipWs_length r0
+      split at h
+      · rename_i r' hid
+        simp only [Option.some.injEq, Prod.mk.injEq] at h
+        obtain ⟨_, rfl⟩ := h
+        have := identifier_length hid
+        omega
+      · cases h
+    · cases h
+
+theorem argumentsTail_length (n : Nat) (cs : List Char) :
+    (argumentsTail n cs).2.length ≤ cs.length := by
+  induction n generalizing cs with
+  | zero => simp [argumentsTail]
+  | succ n ih =>
+    simp only [argumentsTail]
+    split
+    · rename_i r hs
+      have h1 := skipWs_length cs
+      rw [hs] at h1
+      simp only [List.length_cons] at h1
+      have h2 := layoutStar_length r
+      split
+      · rename_i a r1 ha
+        have := argumentR_length ha
+        have := ih r1
+        simp only
+        omega
+      · exact Nat.le_refl _
+    · exact Nat.le_refl _
+
+theorem argumentTailClose_length {a : LArg} {r2 : List Char} {as : List LArg} {r : List Char}
+    (h : argumentTailClose a r2 = some (as, r)) : r.length < r2.length := by
+  simp only [argumentTailClose] at h
+  have h3 := argumentsTail_length (r2.length + 1) r2
+  cases hc : callClose (argumentsTail (r2.length + 1) r2).2 with
+  | none => rw [hc] at h; cases h
+  | some r4 =>
+    rw [hc] at h
+    simp only [Option.map_some, Option.some.injEq, Prod.mk.injEq] at h
+    obtain ⟨_, rfl⟩ := h
+    have := callClose_length hc
+    omega
+
+theorem argumentListParen_length {r1 : List Char} {as : List LArg} {r : List Char}
+    (h : argumentListParen r1 = some (as, r)) : r.length < r1.length := by
+  simp only [argumentListParen] at h
+  have h1 := layoutStar_length r1
+  split at h
+  · rename_i a r2 ha
+    have h2 := argumentR_length ha
+    have := argumentTailClose_length h
+    omega
+  · cases hc : callClose (layoutStar r1) with
+    | none => rw [hc] at h; cases h
+    | some r4 =>
+      rw [hc] at h
+      simp only [Option.map_some, Option.some.injEq, Prod.mk.injEq] at h
+      obtain ⟨_, rfl⟩ := h
+      have := callClose_length hc
+      omega
+
+theorem argumentList_length {cs : List Char} {as : List LArg} {r : List Char}
+    (h : argumentList cs = some (as, r)) : r.length < cs.length := by
+  simp only [argumentList] at h
+  split at h
+  · rename_i a r0 ha
+    simp only [Option.some.injEq, Prod.mk.injEq] at h
+    obtain ⟨_, rfl⟩ := h
+    exact argumentR_length ha
+  · split at h
+    · rename_i r1 _
+      have := argumentListParen_length h
+      simp only [List.length_cons]
+      omega
+    · cases h
+
+theorem lambdaHead_length {cs : List Char} {as : List LArg} {r : List Char}
+    (h : lambdaHead cs = some (as, r)) : r.length < cs.length := by
+  simp only [lambdaHead] at h
+  split at h
+  · rename_i args r0 ha
+    have h0 := argumentList_length ha
+    cases hl : lit ['=', '>'] (skipWs r0) with
+    | none => rw [hl] at h; cases h
+    | some r1 =>
+      rw [hl] at h
+      simp only [Option.map_some, Option.some.injEq, Prod.mk.injEq] at h
+      obtain ⟨_, rfl⟩ := h
+      have := lit_length hl
+      have := skipWs_length r0
+      have := layoutStar_length r1
+      omega
+  · cases h
+
+/-! ### the keywords of a conditional -/
+
+theorem ifHead_length {cs r : List Char} (h : ifHead cs = some r) : r.length < cs.length := by
+  simp only [ifHead] at h
+  split at h
+  · rename_i r0 hl
+    have := lit_length hl
+    have := wsPlus_length h
+    omega
+  · cases h
+
+theorem kwGap_length {kw cs r : List Char} (h : kwGap kw cs = some r) : r.length < cs.length := by
+  simp only [kwGap] at h
+  split at h
+  · rename_i r0 hp
+    have h0 := layoutPlus_length hp
+    split at h
+    · rename_i r1 hl
+      have := lit_length hl
+      have := layoutPlus_length h
+      omega
+    · cases h
+  · cases h
+
 /-! ### one-step unfoldings -/
 
-theorem exprR_succ (f : Nat) (cs : List Char) : exprR (f + 1) cs =
-    match operandR f cs with
+theorem exprR_succ (lam : Bool) (f : Nat) (cs : List Char) : exprR lam (f + 1) cs =
+    match operandR lam f cs with
     | .ok (its, r) =>
-      (match tailR f r with
+      (match tailR lam f r with
        | .ok (more, r') => .ok (its ++ more, r')
        | .fail => .fail
        | .out => .out)
@@ -347,13 +601,13 @@ theorem exprR_succ (f : Nat) (cs : List Char) : exprR (f + 1) cs =
     | .out => .out := by
   rw [exprR]; rfl
 
-theorem tailR_succ (f : Nat) (cs : List Char) : tailR (f + 1) cs =
-    match infixUsage cs with
+theorem tailR_succ (lam : Bool) (f : Nat) (cs : List Char) : tailR lam (f + 1) cs =
+    match infixUsage lam cs with
     | none => .ok ([], cs)
     | some (rule, r) =>
-      match operandR f r with
+      match operandR lam f r with
       | .ok (its, r') =>
-        (match tailR f r' with
+        (match tailR lam f r' with
          | .ok (more, r'') => .ok (.inf rule :: (its ++ more), r'')
          | .fail => .fail
          | .out => .out)
@@ -361,169 +615,574 @@ theorem tailR_succ (f : Nat) (cs : List Char) : tailR (f + 1) cs =
       | .out => .out := by
   rw [tailR]; rfl
 
-theorem operandR_succ (f : Nat) (cs : List Char) : operandR (f + 1) cs =
-    match termAtom (prefixStar cs).2 with
-    | some (e, r1) =>
-      .ok ((prefixStar cs).1 ++ .prim e :: (postfixStar r1).1, (postfixStar r1).2)
+theorem operandR_succ (lam : Bool) (f : Nat) (cs : List Char) : operandR lam (f + 1) cs =
+    match termR f (prefixStar cs).2 with
+    | .ok (e, r1) =>
+      (match postR f r1 with
+       | .ok (post, r2) => .ok ((prefixStar cs).1 ++ .prim e :: post, r2)
+       | .fail => .fail
+       | .out => .out)
+    | .fail => .fail
+    | .out => .out := by
+  rw [operandR]; rfl
+
+theorem termR_succ (f : Nat) (cs : List Char) : termR (f + 1) cs =
+    match condR f cs with
+    | .ok x => .ok x
+    | .fail =>
+      (match lamR f cs with
+       | .ok x => .ok x
+       | .fail => term2R f cs
+       | .out => .out)
+    | .out => .out := by
+  rw [termR]; rfl
+
+theorem condR_succ (f : Nat) (cs : List Char) : condR (f + 1) cs =
+    match ifHead cs with
+    | some r1 =>
+      (match exprR false f r1 with
+       | .ok (its1, r2) =>
+         (match kwGap thenLit r2 with
+          | some r3 =>
+            (match exprR false f r3 with
+             | .ok (its2, r4) =>
+               (match kwGap elseLit r4 with
+                | some r5 =>
+                  (match exprR false f r5 with
+                   | .ok (its3, r6) =>
+                     (match prattParse its1, prattParse its2, prattParse its3 with
+                      | some c, some t, some e => .ok (.cond c t e, r6)
+                      | _, _, _ => .fail)
+                   | .fail => .fail
+                   | .out => .out)
+                | none => .fail)
+             | .fail => .fail
+             | .out => .out)
+          | none => .fail)
+       | .fail => .fail
+       | .out => .out)
+    | none => .fail := by
+  rw [condR]; rfl
+
+theorem lamR_succ (f : Nat) (cs : List Char) : lamR (f + 1) cs =
+    match lambdaHead cs with
+    | some (args, r) =>
+      (match exprR true f r with
+       | .ok (its, r') =>
+         (match prattParse its with
+          | some e => .ok (.lambda args e, r')
+          | none => .fail)
+       | .fail => .fail
+       | .out => .out)
+    | none => .fail := by
+  rw [lamR]; rfl
+
+theorem term2R_succ (f : Nat) (cs : List Char) : term2R (f + 1) cs =
+    match termAtom cs with
+    | some (e, r) => .ok (e, r)
     | none =>
-      match (prefixStar cs).2 with
+      match cs with
       | '(' :: r1 =>
-        (match exprR f (layoutStar r1) with
+        (match exprR false f (layoutStar r1) with
          | .ok (its, r2) =>
            (match layoutStar r2 with
             | ')' :: r3 =>
               (match prattParse its with
-               | some e =>
-                 .ok ((prefixStar cs).1 ++ .prim e :: (postfixStar r3).1, (postfixStar r3).2)
+               | some e => .ok (e, r3)
                | none => .fail)
             | _ => .fail)
          | .fail => .fail
          | .out => .out)
+      | '[' :: r1 =>
+        (match argR true f (gapG r1) with
+         | .ok (a, r2) =>
+           (match argsTailR true f r2 with
+            | .ok (more, r3) =>
+              (match listClose r3 with
+               | some r4 => .ok (.list (mkItems (a :: more)), r4)
+               | none => .fail)
+            | .fail => .fail
+            | .out => .out)
+         | .fail =>
+           (match listClose (gapG r1) with
+            | some r4 => .ok (.list [], r4)
+            | none => .fail)
+         | .out => .out)
       | _ => .fail := by
-  rw [operandR]; rfl
+  rw [term2R.eq_def]; rfl
 
-theorem exprR_zero (cs : List Char) : exprR 0 cs = .out := by rw [exprR]
-theorem tailR_zero (cs : List Char) : tailR 0 cs = .out := by rw [tailR]
-theorem operandR_zero (cs : List Char) : operandR 0 cs = .out := by rw [operandR]
+theorem postR_succ (f : Nat) (cs : List Char) : postR (f + 1) cs =
+    match postOpR f cs with
+    | .ok (it, r) =>
+      (match postR f r with
+       | .ok (more, r') => .ok (it :: more, r')
+       | .fail => .fail
+       | .out => .out)
+    | .fail => .ok ([], cs)
+    | .out => .out := by
+  rw [postR]; rfl
+
+theorem postOpR_succ (f : Nat) (cs : List Char) : postOpR (f + 1) cs =
+    match firstRule postfixLits cs with
+    | some (_, r) => .ok (.postFact, r)
+    | none =>
+      match cs with
+      | '[' :: r1 =>
+        (match exprR false f (nlStar r1) with
+         | .ok (its, r2) =>
+           (match nlStar r2 with
+            | ']' :: r3 =>
+              (match prattParse its with
+               | some e => .ok (.postAccess e, r3)
+               | none => .fail)
+            | _ => .fail)
+         | .fail => .fail
+         | .out => .out)
+      | '(' :: r1 =>
+        (match argR false f (layoutStar r1) with
+         | .ok (a, r2) =>
+           (match argsTailR false f r2 with
+            | .ok (more, r3) =>
+              (match callClose r3 with
+               | some r4 => .ok (.postCall (a :: more), r4)
+               | none => .fail)
+            | .fail => .fail
+            | .out => .out)
+         | .fail =>
+           (match callClose (layoutStar r1) with
+            | some r4 => .ok (.postCall [], r4)
+            | none => .fail)
+         | .out => .out)
+      | '.' :: r1 =>
+        (match identifier r1 with
+         | some r2 => .ok (.postDot (String.ofList (consumed r1 r2)), r2)
+         | none => .fail)
+      | _ => .fail := by
+  rw [postOpR.eq_def]; rfl
+
+theorem argR_succ (lst : Bool) (f : Nat) (cs : List Char) : argR lst (f + 1) cs =
+    match lit spreadLit cs with
+    | some r1 =>
+      (match exprR false f r1 with
+       | .ok (its, r2) =>
+         (match prattParse its with
+          | some e => .ok (.spread e, if lst then itemTrail r2 else r2)
+          | none => .fail)
+       | .fail => .fail
+       | .out => .out)
+    | none =>
+      (match exprR false f cs with
+       | .ok (its, r2) =>
+         (match prattParse its with
+          | some e => .ok (e, if lst then itemTrail r2 else r2)
+          | none => .fail)
+       | .fail => .fail
+       | .out => .out) := by
+  rw [argR]; rfl
+
+theorem argsTailR_succ (lst : Bool) (f : Nat) (cs : List Char) : argsTailR lst (f + 1) cs =
+    match skipWs cs with
+    | ',' :: r =>
+      (match argR lst f (if lst then gapG r else layoutStar r) with
+       | .ok (a, r1) =>
+         (match argsTailR lst f r1 with
+          | .ok (more, r2) => .ok (a :: more, r2)
+          | .fail => .fail
+          | .out => .out)
+       | .fail => .ok ([], cs)
+       | .out => .out)
+    | _ => .ok ([], cs) := by
+  rw [argsTailR.eq_def]; rfl
+
+theorem exprR_zero (lam : Bool) (cs : List Char) : exprR lam 0 cs = .out := by rw [exprR]
+theorem tailR_zero (lam : Bool) (cs : List Char) : tailR lam 0 cs = .out := by rw [tailR]
+theorem operandR_zero (lam : Bool) (cs : List Char) : operandR lam 0 cs = .out := by rw [operandR]
+theorem termR_zero (cs : List Char) : termR 0 cs = .out := by rw [termR]
+theorem lamR_zero (cs : List Char) : lamR 0 cs = .out := by rw [lamR]
+theorem condR_zero (cs : List Char) : condR 0 cs = .out := by rw [condR]
+theorem term2R_zero (cs : List Char) : term2R 0 cs = .out := by rw [term2R]
+theorem postR_zero (cs : List Char) : postR 0 cs = .out := by rw [postR]
+theorem postOpR_zero (cs : List Char) : postOpR 0 cs = .out := by rw [postOpR]
+theorem argR_zero (lst : Bool) (cs : List Char) : argR lst 0 cs = .out := by rw [argR]
+theorem argsTailR_zero (lst : Bool) (cs : List Char) : argsTailR lst 0 cs = .out := by rw [argsTailR]
 
 /-! ### fuel monotonicity -/
 
+theorem Res.ok_ne_out {α} {x : α} : (Res.ok x : Res α) ≠ .out := fun h => nomatch h
+theorem Res.fail_ne_out {α} : (Res.fail : Res α) ≠ .out := fun h => nomatch h
+
+/-- one call site of `step`: split on the result of the recursive call `t` (at fuel `f`);
+    "out" contradicts `h`, otherwise the call at fuel `f + 1` is rewritten by the induction
+    hypothesis `ih`; the goal that remains is the `ok` case -/
+macro "step_site " hn:ident " : " t:term " , " ih:term " , " h:ident : tactic => `(tactic|
+  (cases $hn:ident : $t
+   case out => (rw [$hn:ident] at $h:ident; exact absurd rfl $h)
+   case fail => (rw [$ih _ (by rw [$hn:ident]; exact Res.fail_ne_out), $hn:ident])
+   rw [$ih _ (by rw [$hn:ident]; exact Res.ok_ne_out), $hn:ident]
+   first
+     | done
+     | (rw [$hn:ident] at $h:ident
+        simp only at $h:ident ⊢)))
+
 /-- a result other than "fuel ran out" is the result with one more unit of fuel -/
-theorem step (f : Nat) :
-    (∀ cs, exprR f cs ≠ .out → exprR (f + 1) cs = exprR f cs) ∧
-    (∀ cs, tailR f cs ≠ .out → tailR (f + 1) cs = tailR f cs) ∧
-    (∀ cs, operandR f cs ≠ .out → operandR (f + 1) cs = operandR f cs) := by
+structure StepAll (f : Nat) : Prop where
+  e : ∀ lam cs, exprR lam f cs ≠ .out → exprR lam (f + 1) cs = exprR lam f cs
+  t : ∀ lam cs, tailR lam f cs ≠ .out → tailR lam (f + 1) cs = tailR lam f cs
+  o : ∀ lam cs, operandR lam f cs ≠ .out → operandR lam (f + 1) cs = operandR lam f cs
+  m : ∀ cs, termR f cs ≠ .out → termR (f + 1) cs = termR f cs
+  l : ∀ cs, lamR f cs ≠ .out → lamR (f + 1) cs = lamR f cs
+  c : ∀ cs, condR f cs ≠ .out → condR (f + 1) cs = condR f cs
+  m2 : ∀ cs, term2R f cs ≠ .out → term2R (f + 1) cs = term2R f cs
+  p : ∀ cs, postR f cs ≠ .out → postR (f + 1) cs = postR f cs
+  q : ∀ cs, postOpR f cs ≠ .out → postOpR (f + 1) cs = postOpR f cs
+  a : ∀ lst cs, argR lst f cs ≠ .out → argR lst (f + 1) cs = argR lst f cs
+  s : ∀ lst cs, argsTailR lst f cs ≠ .out → argsTailR lst (f + 1) cs = argsTailR lst f cs
+
+theorem step (f : Nat) : StepAll f := by
   induction f with
   | zero =>
-    refine ⟨?_, ?_, ?_⟩
-    · intro cs h; exact absurd (exprR_zero cs) h
-    · intro cs h; exact absurd (tailR_zero cs) h
-    · intro cs h; exact absurd (operandR_zero cs) h
+    refine ⟨?_, ?_, ?_, ?_, ?_, ?_, ?_, ?_, ?_, ?_, ?_⟩
+    · intro lam cs h; exact absurd (exprR_zero lam cs) h
+    · intro lam cs h; exact absurd (tailR_zero lam cs) h
+    · intro lam cs h; exact absurd (operandR_zero lam cs) h
+    · intro cs h; exact absurd (termR_zero cs) h
+    · intro cs h; exact absurd (lamR_zero cs) h
+    · intro cs h; exact absurd (condR_zero cs) h
+    · intro cs h; exact absurd (term2R_zero cs) h
+    · intro cs h; exact absurd (postR_zero cs) h
+    · intro cs h; exact absurd (postOpR_zero cs) h
+    · intro lst cs h; exact absurd (argR_zero lst cs) h
+    · intro lst cs h; exact absurd (argsTailR_zero lst cs) h
   | succ f ih =>
-    obtain ⟨ihE, ihT, ihO⟩ := ih
-    refine ⟨?_, ?_, ?_⟩
-    · intro cs h
-      rw [exprR_succ f] at h
-      rw [exprR_succ (f + 1), exprR_succ f]
-      cases hop : operandR f cs with
-      | out => rw [hop] at h; exact absurd rfl h
-      | fail => rw [ihO cs (by rw [hop]; exact fun h => nomatch h), hop]
-      | ok x =>
-        obtain ⟨its, r⟩ := x
-        rw [ihO cs (by rw [hop]; exact fun h => nomatch h), hop]
-        rw [hop] at h
-        simp only at h ⊢
-        cases ht : tailR f r with
-        | out => rw [ht] at h; exact absurd rfl h
-        | fail => rw [ihT r (by rw [ht]; exact fun h => nomatch h), ht]
-        | ok y => rw [ihT r (by rw [ht]; exact fun h => nomatch h), ht]
-    · intro cs h
-      rw [tailR_succ f] at h
-      rw [tailR_succ (f + 1), tailR_succ f]
-      cases hi : infixUsage cs with
+    refine ⟨?_, ?_, ?_, ?_, ?_, ?_, ?_, ?_, ?_, ?_, ?_⟩
+    · intro lam cs h
+      rw [exprR_succ lam f] at h
+      rw [exprR_succ lam (f + 1), exprR_succ lam f]
+      step_site h1 : operandR lam f cs, ih.o lam, h
+      rename_i x; obtain ⟨its, r⟩ := x
+      simp only at h ⊢
+      step_site h2 : tailR lam f r, ih.t lam, h
+    · intro lam cs h
+      rw [tailR_succ lam f] at h
+      rw [tailR_succ lam (f + 1), tailR_succ lam f]
+      cases hi : infixUsage lam cs with
       | none => rfl
       | some x =>
         obtain ⟨rule, r0⟩ := x
         rw [hi] at h
         simp only at h ⊢
-        cases hop : operandR f r0 with
-        | out => rw [hop] at h; exact absurd rfl h
-        | fail => rw [ihO r0 (by rw [hop]; exact fun h => nomatch h), hop]
-        | ok x =>
-          obtain ⟨its, r⟩ := x
-          rw [ihO r0 (by rw [hop]; exact fun h => nomatch h), hop]
-          rw [hop] at h
-          simp only at h ⊢
-          cases ht : tailR f r with
-          | out => rw [ht] at h; exact absurd rfl h
-          | fail => rw [ihT r (by rw [ht]; exact fun h => nomatch h), ht]
-          | ok y => rw [ihT r (by rw [ht]; exact fun h => nomatch h), ht]
+        step_site h1 : operandR lam f r0, ih.o lam, h
+        rename_i x; obtain ⟨its, r⟩ := x
+        simp only at h ⊢
+        step_site h2 : tailR lam f r, ih.t lam, h
+    · intro lam cs h
+      rw [operandR_succ lam f] at h
+      rw [operandR_succ lam (f + 1), operandR_succ lam f]
+      step_site h1 : termR f (prefixStar cs).2, ih.m, h
+      rename_i x; obtain ⟨e, r⟩ := x
+      simp only at h ⊢
+      step_site h2 : postR f r, ih.p, h
     · intro cs h
-      rw [operandR_succ f] at h
-      rw [operandR_succ (f + 1), operandR_succ f]
-      split
-      · rfl
-      · split
-        · rename_i r1 hp
-          rw [hp] at h
+      rw [termR_succ f] at h
+      rw [termR_succ (f + 1), termR_succ f]
+      cases h0 : condR f cs with
+      | out => rw [h0] at h; exact absurd rfl h
+      | ok x => rw [ih.c cs (by rw [h0]; exact Res.ok_ne_out), h0]
+      | fail =>
+        rw [ih.c cs (by rw [h0]; exact Res.fail_ne_out), h0]
+        rw [h0] at h
+        simp only at h ⊢
+        cases h1 : lamR f cs with
+        | out => rw [h1] at h; exact absurd rfl h
+        | ok x => rw [ih.l cs (by rw [h1]; exact Res.ok_ne_out), h1]
+        | fail =>
+          rw [ih.l cs (by rw [h1]; exact Res.fail_ne_out), h1]
+          rw [h1] at h
+          simp only at h ⊢
+          exact ih.m2 cs h
+    · intro cs h
+      rw [lamR_succ f] at h
+      rw [lamR_succ (f + 1), lamR_succ f]
+      cases hh : lambdaHead cs with
+      | none => rfl
+      | some x =>
+        obtain ⟨args, r⟩ := x
+        rw [hh] at h
+        simp only at h ⊢
+        step_site h1 : exprR true f r, ih.e true, h
+    · intro cs h
+      rw [condR_succ f] at h
+      rw [condR_succ (f + 1), condR_succ f]
+      cases hh : ifHead cs with
+      | none => rfl
+      | some r1 =>
+        rw [hh] at h
+        simp only at h ⊢
+        step_site h1 : exprR false f r1, ih.e false, h
+        rename_i x; obtain ⟨its1, r2⟩ := x
+        simp only at h ⊢
+        cases hk1 : kwGap thenLit r2 with
+        | none => rfl
+        | some r3 =>
+          rw [hk1] at h
+          simp only at h ⊢
+          step_site h2 : exprR false f r3, ih.e false, h
+          rename_i y; obtain ⟨its2, r4⟩ := y
+          simp only at h ⊢
+          cases hk2 : kwGap elseLit r4 with
+          | none => rfl
+          | some r5 =>
+            rw [hk2] at h
+            simp only at h ⊢
+            step_site h3 : exprR false f r5, ih.e false, h
+    · intro cs h
+      rw [term2R_succ f] at h
+      rw [term2R_succ (f + 1), term2R_succ f]
+      cases ha : termAtom cs with
+      | some x => rfl
+      | none =>
+        rw [ha] at h
+        simp only at h ⊢
+        split
+        · rename_i r1
           simp only at h
-          cases he : exprR f (layoutStar r1) with
-          | out => rw [he] at h; exact absurd rfl h
-          | fail => rw [ihE _ (by rw [he]; exact fun h => nomatch h), he]
-          | ok y => rw [ihE _ (by rw [he]; exact fun h => nomatch h), he]
+          step_site h1 : exprR false f (layoutStar r1), ih.e false, h
+        · rename_i r1
+          simp only at h
+          step_site h1 : argR true f (gapG r1), ih.a true, h
+          rename_i x; obtain ⟨a, r2⟩ := x
+          simp only at h ⊢
+          step_site h2 : argsTailR true f r2, ih.s true, h
         · rfl
+    · intro cs h
+      rw [postR_succ f] at h
+      rw [postR_succ (f + 1), postR_succ f]
+      step_site h1 : postOpR f cs, ih.q, h
+      rename_i x; obtain ⟨it, r⟩ := x
+      simp only at h ⊢
+      step_site h2 : postR f r, ih.p, h
+    · intro cs h
+      rw [postOpR_succ f] at h
+      rw [postOpR_succ (f + 1), postOpR_succ f]
+      cases ha : firstRule postfixLits cs with
+      | some x => rfl
+      | none =>
+        rw [ha] at h
+        simp only at h ⊢
+        split
+        · rename_i r1
+          simp only at h
+          step_site h1 : exprR false f (nlStar r1), ih.e false, h
+        · rename_i r1
+          simp only at h
+          step_site h1 : argR false f (layoutStar r1), ih.a false, h
+          rename_i x; obtain ⟨a, r2⟩ := x
+          simp only at h ⊢
+          step_site h2 : argsTailR false f r2, ih.s false, h
+        · rfl
+        · rfl
+    · intro lst cs h
+      rw [argR_succ lst f] at h
+      rw [argR_succ lst (f + 1), argR_succ lst f]
+      cases hl : lit spreadLit cs with
+      | some r1 =>
+        rw [hl] at h
+        simp only at h ⊢
+        step_site h1 : exprR false f r1, ih.e false, h
+      | none =>
+        rw [hl] at h
+        simp only at h ⊢
+        step_site h1 : exprR false f cs, ih.e false, h
+    · intro lst cs h
+      rw [argsTailR_succ lst f] at h
+      rw [argsTailR_succ lst (f + 1), argsTailR_succ lst f]
+      split
+      · rename_i r hs
+        rw [hs] at h
+        simp only at h
+        step_site h1 : argR lst f (if lst then gapG r else layoutStar r), ih.a lst, h
+        rename_i x; obtain ⟨a, r1⟩ := x
+        simp only at h ⊢
+        step_site h2 : argsTailR lst f r1, ih.s lst, h
+      · rfl
 
-theorem exprR_add {f : Nat} {cs : List Char} (h : exprR f cs ≠ .out) (k : Nat) :
-    exprR (f + k) cs = exprR f cs := by
+theorem exprR_add {lam : Bool} {f : Nat} {cs : List Char} (h : exprR lam f cs ≠ .out) (k : Nat) :
+    exprR lam (f + k) cs = exprR lam f cs := by
   induction k with
   | zero => rfl
-  | succ k ih => rw [← Nat.add_assoc, (step (f + k)).1 cs (by rw [ih]; exact h), ih]
+  | succ k ih => rw [← Nat.add_assoc, (step (f + k)).e lam cs (by rw [ih]; exact h), ih]
 
-theorem tailR_add {f : Nat} {cs : List Char} (h : tailR f cs ≠ .out) (k : Nat) :
-    tailR (f + k) cs = tailR f cs := by
+theorem exprR_mono {lam : Bool} {f f' : Nat} {cs : List Char} {x} (h : f ≤ f')
+    (hx : exprR lam f cs = .ok x) : exprR lam f' cs = .ok x := by
+  obtain ⟨k, rfl⟩ := Nat.exists_eq_add_of_le h
+  rw [exprR_add (by rw [hx]; exact Res.ok_ne_out), hx]
+
+theorem tailR_add {lam : Bool} {f : Nat} {cs : List Char} (h : tailR lam f cs ≠ .out) (k : Nat) :
+    tailR lam (f + k) cs = tailR lam f cs := by
   induction k with
   | zero => rfl
-  | succ k ih => rw [← Nat.add_assoc, (step (f + k)).2.1 cs (by rw [ih]; exact h), ih]
+  | succ k ih => rw [← Nat.add_assoc, (step (f + k)).t lam cs (by rw [ih]; exact h), ih]
 
-theorem operandR_add {f : Nat} {cs : List Char} (h : operandR f cs ≠ .out) (k : Nat) :
-    operandR (f + k) cs = operandR f cs := by
+theorem tailR_mono {lam : Bool} {f f' : Nat} {cs : List Char} {x} (h : f ≤ f')
+    (hx : tailR lam f cs = .ok x) : tailR lam f' cs = .ok x := by
+  obtain ⟨k, rfl⟩ := Nat.exists_eq_add_of_le h
+  rw [tailR_add (by rw [hx]; exact Res.ok_ne_out), hx]
+
+theorem operandR_add {lam : Bool} {f : Nat} {cs : List Char} (h : operandR lam f cs ≠ .out) (k : Nat) :
+    operandR lam (f + k) cs = operandR lam f cs := by
   induction k with
   | zero => rfl
-  | succ k ih => rw [← Nat.add_assoc, (step (f + k)).2.2 cs (by rw [ih]; exact h), ih]
+  | succ k ih => rw [← Nat.add_assoc, (step (f + k)).o lam cs (by rw [ih]; exact h), ih]
 
-theorem exprR_mono {f f' : Nat} {cs : List Char} {x} (h : f ≤ f') (hx : exprR f cs = .ok x) :
-    exprR f' cs = .ok x := by
+theorem operandR_mono {lam : Bool} {f f' : Nat} {cs : List Char} {x} (h : f ≤ f')
+    (hx : operandR lam f cs = .ok x) : operandR lam f' cs = .ok x := by
   obtain ⟨k, rfl⟩ := Nat.exists_eq_add_of_le h
-  rw [exprR_add (by rw [hx]; exact fun h => nomatch h), hx]
+  rw [operandR_add (by rw [hx]; exact Res.ok_ne_out), hx]
 
-theorem tailR_mono {f f' : Nat} {cs : List Char} {x} (h : f ≤ f') (hx : tailR f cs = .ok x) :
-    tailR f' cs = .ok x := by
-  obtain ⟨k, rfl⟩ := Nat.exists_eq_add_of_le h
-  rw [tailR_add (by rw [hx]; exact fun h => nomatch h), hx]
+theorem termR_add {f : Nat} {cs : List Char} (h : termR f cs ≠ .out) (k : Nat) :
+    termR (f + k) cs = termR f cs := by
+  induction k with
+  | zero => rfl
+  | succ k ih => rw [← Nat.add_assoc, (step (f + k)).m cs (by rw [ih]; exact h), ih]
 
-theorem operandR_mono {f f' : Nat} {cs : List Char} {x} (h : f ≤ f')
-    (hx : operandR f cs = .ok x) : operandR f' cs = .ok x := by
+theorem termR_mono {f f' : Nat} {cs : List Char} {x} (h : f ≤ f')
+    (hx : termR f cs = .ok x) : termR f' cs = .ok x := by
   obtain ⟨k, rfl⟩ := Nat.exists_eq_add_of_le h
-  rw [operandR_add (by rw [hx]; exact fun h => nomatch h), hx]
+  rw [termR_add (by rw [hx]; exact Res.ok_ne_out), hx]
+
+theorem lamR_add {f : Nat} {cs : List Char} (h : lamR f cs ≠ .out) (k : Nat) :
+    lamR (f + k) cs = lamR f cs := by
+  induction k with
+  | zero => rfl
+  | succ k ih => rw [← Nat.add_assoc, (step (f + k)).l cs (by rw [ih]; exact h), ih]
+
+theorem lamR_mono {f f' : Nat} {cs : List Char} {x} (h : f ≤ f')
+    (hx : lamR f cs = .ok x) : lamR f' cs = .ok x := by
+  obtain ⟨k, rfl⟩ := Nat.exists_eq_add_of_le h
+  rw [lamR_add (by rw [hx]; exact Res.ok_ne_out), hx]
+
+theorem condR_add {f : Nat} {cs : List Char} (h : condR f cs ≠ .out) (k : Nat) :
+    condR (f + k) cs = condR f cs := by
+  induction k with
+  | zero => rfl
+  | succ k ih => rw [← Nat.add_assoc, (step (f + k)).c cs (by rw [ih]; exact h), ih]
+
+theorem condR_mono {f f' : Nat} {cs : List Char} {x} (h : f ≤ f')
+    (hx : condR f cs = .ok x) : condR f' cs = .ok x := by
+  obtain ⟨k, rfl⟩ := Nat.exists_eq_add_of_le h
+  rw [condR_add (by rw [hx]; exact Res.ok_ne_out), hx]
+
+theorem term2R_add {f : Nat} {cs : List Char} (h : term2R f cs ≠ .out) (k : Nat) :
+    term2R (f + k) cs = term2R f cs := by
+  induction k with
+  | zero => rfl
+  | succ k ih => rw [← Nat.add_assoc, (step (f + k)).m2 cs (by rw [ih]; exact h), ih]
+
+theorem term2R_mono {f f' : Nat} {cs : List Char} {x} (h : f ≤ f')
+    (hx : term2R f cs = .ok x) : term2R f' cs = .ok x := by
+  obtain ⟨k, rfl⟩ := Nat.exists_eq_add_of_le h
+  rw [term2R_add (by rw [hx]; exact Res.ok_ne_out), hx]
+
+theorem postR_add {f : Nat} {cs : List Char} (h : postR f cs ≠ .out) (k : Nat) :
+    postR (f + k) cs = postR f cs := by
+  induction k with
+  | zero => rfl
+  | succ k ih => rw [← Nat.add_assoc, (step (f + k)).p cs (by rw [ih]; exact h), ih]
+
+theorem postR_mono {f f' : Nat} {cs : List Char} {x} (h : f ≤ f')
+    (hx : postR f cs = .ok x) : postR f' cs = .ok x := by
+  obtain ⟨k, rfl⟩ := Nat.exists_eq_add_of_le h
+  rw [postR_add (by rw [hx]; exact Res.ok_ne_out), hx]
+
+theorem postOpR_add {f : Nat} {cs : List Char} (h : postOpR f cs ≠ .out) (k : Nat) :
+    postOpR (f + k) cs = postOpR f cs := by
+  induction k with
+  | zero => rfl
+  | succ k ih => rw [← Nat.add_assoc, (step (f + k)).q cs (by rw [ih]; exact h), ih]
+
+theorem postOpR_mono {f f' : Nat} {cs : List Char} {x} (h : f ≤ f')
+    (hx : postOpR f cs = .ok x) : postOpR f' cs = .ok x := by
+  obtain ⟨k, rfl⟩ := Nat.exists_eq_add_of_le h
+  rw [postOpR_add (by rw [hx]; exact Res.ok_ne_out), hx]
+
+theorem argR_add {lst : Bool} {f : Nat} {cs : List Char} (h : argR lst f cs ≠ .out) (k : Nat) :
+    argR lst (f + k) cs = argR lst f cs := by
+  induction k with
+  | zero => rfl
+  | succ k ih => rw [← Nat.add_assoc, (step (f + k)).a lst cs (by rw [ih]; exact h), ih]
+
+theorem argR_mono {lst : Bool} {f f' : Nat} {cs : List Char} {x} (h : f ≤ f')
+    (hx : argR lst f cs = .ok x) : argR lst f' cs = .ok x := by
+  obtain ⟨k, rfl⟩ := Nat.exists_eq_add_of_le h
+  rw [argR_add (by rw [hx]; exact Res.ok_ne_out), hx]
+
+theorem argsTailR_add {lst : Bool} {f : Nat} {cs : List Char} (h : argsTailR lst f cs ≠ .out) (k : Nat) :
+    argsTailR lst (f + k) cs = argsTailR lst f cs := by
+  induction k with
+  | zero => rfl
+  | succ k ih => rw [← Nat.add_assoc, (step (f + k)).s lst cs (by rw [ih]; exact h), ih]
+
+theorem argsTailR_mono {lst : Bool} {f f' : Nat} {cs : List Char} {x} (h : f ≤ f')
+    (hx : argsTailR lst f cs = .ok x) : argsTailR lst f' cs = .ok x := by
+  obtain ⟨k, rfl⟩ := Nat.exists_eq_add_of_le h
+  rw [argsTailR_add (by rw [hx]; exact Res.ok_ne_out), hx]
 
 /-! ### progress -/
 
-theorem lengths (f : Nat) :
-    (∀ cs its r, exprR f cs = .ok (its, r) → r.length < cs.length) ∧
-    (∀ cs its r, tailR f cs = .ok (its, r) → r.length ≤ cs.length) ∧
-    (∀ cs its r, operandR f cs = .ok (its, r) → r.length < cs.length) := by
+/-- one call site of `lengths`: "out" and "fail" contradict `h`; the goal that remains is the
+    `ok` case, with `h` reduced -/
+macro "len_site " hn:ident " : " t:term " , " h:ident : tactic => `(tactic|
+  (cases $hn:ident : $t
+   case out => (rw [$hn:ident] at $h:ident; cases $h:ident)
+   case fail => (rw [$hn:ident] at $h:ident; cases $h:ident)
+   rw [$hn:ident] at $h:ident
+   simp only at $h:ident))
+
+structure LenAll (f : Nat) : Prop where
+  e : ∀ lam cs its r, exprR lam f cs = .ok (its, r) → r.length < cs.length
+  t : ∀ lam cs its r, tailR lam f cs = .ok (its, r) → r.length ≤ cs.length
+  o : ∀ lam cs its r, operandR lam f cs = .ok (its, r) → r.length < cs.length
+  m : ∀ cs e r, termR f cs = .ok (e, r) → r.length < cs.length
+  l : ∀ cs e r, lamR f cs = .ok (e, r) → r.length < cs.length
+  c : ∀ cs e r, condR f cs = .ok (e, r) → r.length < cs.length
+  m2 : ∀ cs e r, term2R f cs = .ok (e, r) → r.length < cs.length
+  p : ∀ cs its r, postR f cs = .ok (its, r) → r.length ≤ cs.length
+  q : ∀ cs it r, postOpR f cs = .ok (it, r) → r.length < cs.length
+  a : ∀ lst cs e r, argR lst f cs = .ok (e, r) → r.length < cs.length
+  s : ∀ lst cs es r, argsTailR lst f cs = .ok (es, r) → r.length ≤ cs.length
+
+theorem lengths (f : Nat) : LenAll f := by
   induction f with
   | zero =>
-    refine ⟨?_, ?_, ?_⟩
-    · intro cs its r h; rw [exprR_zero] at h; cases h
-    · intro cs its r h; rw [tailR_zero] at h; cases h
-    · intro cs its r h; rw [operandR_zero] at h; cases h
+    refine ⟨?_, ?_, ?_, ?_, ?_, ?_, ?_, ?_, ?_, ?_, ?_⟩
+    · intro lam cs its r h; rw [exprR_zero] at h; cases h
+    · intro lam cs its r h; rw [tailR_zero] at h; cases h
+    · intro lam cs its r h; rw [operandR_zero] at h; cases h
+    · intro cs its r h; rw [termR_zero] at h; cases h
+    · intro cs its r h; rw [lamR_zero] at h; cases h
+    · intro cs its r h; rw [condR_zero] at h; cases h
+    · intro cs its r h; rw [term2R_zero] at h; cases h
+    · intro cs its r h; rw [postR_zero] at h; cases h
+    · intro cs its r h; rw [postOpR_zero] at h; cases h
+    · intro lst cs its r h; rw [argR_zero] at h; cases h
+    · intro lst cs its r h; rw [argsTailR_zero] at h; cases h
   | succ f ih =>
-    obtain ⟨ihE, ihT, ihO⟩ := ih
-    refine ⟨?_, ?_, ?_⟩
-    · intro cs its r h
+    refine ⟨?_, ?_, ?_, ?_, ?_, ?_, ?_, ?_, ?_, ?_, ?_⟩
+    · intro lam cs its r h
       rw [exprR_succ] at h
-      cases hop : operandR f cs with
-      | out => rw [hop] at h; cases h
-      | fail => rw [hop] at h; cases h
-      | ok x =>
-        obtain ⟨its1, r1⟩ := x
-        rw [hop] at h
-        simp only at h
-        cases ht : tailR f r1 with
-        | out => rw [ht] at h; cases h
-        | fail => rw [ht] at h; cases h
-        | ok y =>
-          obtain ⟨its2, r2⟩ := y
-          rw [ht] at h
-          simp only [Res.ok.injEq, Prod.mk.injEq] at h
-          obtain ⟨_, rfl⟩ := h
-          have h1 := ihO _ _ _ hop
-          have h2 := ihT _ _ _ ht
-          omega
-    · intro cs its r h
+      len_site h1 : operandR lam f cs, h
+      rename_i x; obtain ⟨its1, r1⟩ := x
+      simp only at h
+      len_site h2 : tailR lam f r1, h
+      rename_i y; obtain ⟨its2, r2⟩ := y
+      simp only [Res.ok.injEq, Prod.mk.injEq] at h
+      obtain ⟨_, rfl⟩ := h
+      have := ih.o _ _ _ _ h1
+      have := ih.t _ _ _ _ h2
+      omega
+    · intro lam cs its r h
       rw [tailR_succ] at h
-      cases hi : infixUsage cs with
+      cases hi : infixUsage lam cs with
       | none =>
         rw [hi] at h
         simp only [Res.ok.injEq, Prod.mk.injEq] at h
@@ -533,152 +1192,565 @@ theorem lengths (f : Nat) :
         obtain ⟨rule, r0⟩ := x
         rw [hi] at h
         simp only at h
-        cases hop : operandR f r0 with
-        | out => rw [hop] at h; cases h
+        have h0 := infixUsage_length hi
+        cases h1 : operandR lam f r0 with
+        | out => rw [h1] at h; cases h
         | fail =>
-          rw [hop] at h
+          rw [h1] at h
           simp only [Res.ok.injEq, Prod.mk.injEq] at h
           obtain ⟨_, rfl⟩ := h
           exact Nat.le_refl _
         | ok x =>
           obtain ⟨its1, r1⟩ := x
-          rw [hop] at h
+          rw [h1] at h
           simp only at h
-          cases ht : tailR f r1 with
-          | out => rw [ht] at h; cases h
-          | fail => rw [ht] at h; cases h
-          | ok y =>
-            obtain ⟨its2, r2⟩ := y
-            rw [ht] at h
-            simp only [Res.ok.injEq, Prod.mk.injEq] at h
-            obtain ⟨_, rfl⟩ := h
-            have h0 := infixUsage_length hi
-            have h1 := ihO _ _ _ hop
-            have h2 := ihT _ _ _ ht
-            omega
-    · intro cs its r h
+          len_site h2 : tailR lam f r1, h
+          rename_i y; obtain ⟨its2, r2⟩ := y
+          simp only [Res.ok.injEq, Prod.mk.injEq] at h
+          obtain ⟨_, rfl⟩ := h
+          have := ih.o _ _ _ _ h1
+          have := ih.t _ _ _ _ h2
+          omega
+    · intro lam cs its r h
       rw [operandR_succ] at h
       have hpre := prefixStar_length cs
-      split at h
-      · rename_i e r1 hta
+      len_site h1 : termR f (prefixStar cs).2, h
+      rename_i x; obtain ⟨e, r1⟩ := x
+      simp only at h
+      len_site h2 : postR f r1, h
+      rename_i y; obtain ⟨post, r2⟩ := y
+      simp only [Res.ok.injEq, Prod.mk.injEq] at h
+      obtain ⟨_, rfl⟩ := h
+      have := ih.m _ _ _ h1
+      have := ih.p _ _ _ h2
+      omega
+    · intro cs e r h
+      rw [termR_succ] at h
+      cases h0 : condR f cs with
+      | out => rw [h0] at h; cases h
+      | ok x =>
+        obtain ⟨e', r'⟩ := x
+        rw [h0] at h
         simp only [Res.ok.injEq, Prod.mk.injEq] at h
         obtain ⟨_, rfl⟩ := h
-        have h1 := termAtom_length hta
-        have h2 := postfixStar_length r1
-        omega
-      · split at h
-        · rename_i r1 hp
-          rw [hp] at hpre
-          simp only [List.length_cons] at hpre
-          cases he : exprR f (layoutStar r1) with
-          | out => rw [he] at h; cases h
-          | fail => rw [he] at h; cases h
-          | ok y =>
-            obtain ⟨its2, r2⟩ := y
-            rw [he] at h
+        exact ih.c _ _ _ h0
+      | fail =>
+        rw [h0] at h
+        simp only at h
+        cases h1 : lamR f cs with
+        | out => rw [h1] at h; cases h
+        | ok x =>
+          obtain ⟨e', r'⟩ := x
+          rw [h1] at h
+          simp only [Res.ok.injEq, Prod.mk.injEq] at h
+          obtain ⟨_, rfl⟩ := h
+          exact ih.l _ _ _ h1
+        | fail =>
+          rw [h1] at h
+          exact ih.m2 _ _ _ h
+    · intro cs e r h
+      rw [lamR_succ] at h
+      split at h
+      · rename_i args r0 hh
+        have h0 := lambdaHead_length hh
+        len_site h1 : exprR true f r0, h
+        rename_i x; obtain ⟨its, r2⟩ := x
+        simp only at h
+        split at h
+        · simp only [Res.ok.injEq, Prod.mk.injEq] at h
+          obtain ⟨_, rfl⟩ := h
+          have := ih.e _ _ _ _ h1
+          omega
+        · cases h
+      · cases h
+    · intro cs e r h
+      rw [condR_succ] at h
+      split at h
+      · rename_i r1 hh
+        have h0 := ifHead_length hh
+        len_site h1 : exprR false f r1, h
+        rename_i x; obtain ⟨its1, r2⟩ := x
+        simp only at h
+        split at h
+        · rename_i r3 hk1
+          have := kwGap_length hk1
+          len_site h2 : exprR false f r3, h
+          rename_i y; obtain ⟨its2, r4⟩ := y
+          simp only at h
+          split at h
+          · rename_i r5 hk2
+            have := kwGap_length hk2
+            len_site h3 : exprR false f r5, h
+            rename_i z; obtain ⟨its3, r6⟩ := z
             simp only at h
             split at h
-            · rename_i r3 hl
-              split at h
-              · simp only [Res.ok.injEq, Prod.mk.injEq] at h
-                obtain ⟨_, rfl⟩ := h
-                have h1 := ihE _ _ _ he
-                have h2 := layoutStar_length r1
-                have h3 := layoutStar_length r2
-                rw [hl] at h3
-                simp only [List.length_cons] at h3
-                have h4 := postfixStar_length r3
-                omega
-              · cases h
+            · simp only [Res.ok.injEq, Prod.mk.injEq] at h
+              obtain ⟨_, rfl⟩ := h
+              have := ih.e _ _ _ _ h1
+              have := ih.e _ _ _ _ h2
+              have := ih.e _ _ _ _ h3
+              omega
+            · cases h
+          · cases h
+        · cases h
+      · cases h
+    · intro cs e r h
+      rw [term2R_succ] at h
+      split at h
+      · rename_i e' r' hta
+        simp only [Res.ok.injEq, Prod.mk.injEq] at h
+        obtain ⟨_, rfl⟩ := h
+        exact termAtom_length hta
+      · split at h
+        · rename_i r1 _
+          len_site h1 : exprR false f (layoutStar r1), h
+          rename_i x; obtain ⟨its, r2⟩ := x
+          simp only at h
+          split at h
+          · rename_i r3 hl
+            split at h
+            · simp only [Res.ok.injEq, Prod.mk.injEq] at h
+              obtain ⟨_, rfl⟩ := h
+              have := ih.e _ _ _ _ h1
+              have := layoutStar_length r1
+              have h3 := layoutStar_length r2
+              rw [hl] at h3
+              simp only [List.length_cons] at h3 ⊢
+              omega
+            · cases h
+          · cases h
+        · rename_i r1 _
+          have hls := gapG_length r1
+          cases h1 : argR true f (gapG r1) with
+          | out => rw [h1] at h; cases h
+          | fail =>
+            rw [h1] at h
+            simp only at h
+            split at h
+            · rename_i r4 hc
+              simp only [Res.ok.injEq, Prod.mk.injEq] at h
+              obtain ⟨_, rfl⟩ := h
+              have := listClose_length hc
+              simp only [List.length_cons]
+              omega
+            · cases h
+          | ok x =>
+            obtain ⟨a, r2⟩ := x
+            rw [h1] at h
+            simp only at h
+            len_site h2 : argsTailR true f r2, h
+            rename_i y; obtain ⟨more, r3⟩ := y
+            simp only at h
+            split at h
+            · rename_i r4 hc
+              simp only [Res.ok.injEq, Prod.mk.injEq] at h
+              obtain ⟨_, rfl⟩ := h
+              have := listClose_length hc
+              have := ih.a _ _ _ _ h1
+              have := ih.s _ _ _ _ h2
+              simp only [List.length_cons]
+              omega
             · cases h
         · cases h
+    · intro cs its r h
+      rw [postR_succ] at h
+      cases h1 : postOpR f cs with
+      | out => rw [h1] at h; cases h
+      | fail =>
+        rw [h1] at h
+        simp only [Res.ok.injEq, Prod.mk.injEq] at h
+        obtain ⟨_, rfl⟩ := h
+        exact Nat.le_refl _
+      | ok x =>
+        obtain ⟨it, r1⟩ := x
+        rw [h1] at h
+        simp only at h
+        len_site h2 : postR f r1, h
+        rename_i y; obtain ⟨more, r2⟩ := y
+        simp only [Res.ok.injEq, Prod.mk.injEq] at h
+        obtain ⟨_, rfl⟩ := h
+        have := ih.q _ _ _ h1
+        have := ih.p _ _ _ h2
+        omega
+    · intro cs it r h
+      rw [postOpR_succ] at h
+      split at h
+      · rename_i rl r' hf
+        simp only [Res.ok.injEq, Prod.mk.injEq] at h
+        obtain ⟨_, rfl⟩ := h
+        exact firstRule_length postfixLits_nonempty hf
+      · split at h
+        · rename_i r1 _
+          len_site h1 : exprR false f (nlStar r1), h
+          rename_i x; obtain ⟨its, r2⟩ := x
+          simp only at h
+          split at h
+          · rename_i r3 hl
+            split at h
+            · simp only [Res.ok.injEq, Prod.mk.injEq] at h
+              obtain ⟨_, rfl⟩ := h
+              have := ih.e _ _ _ _ h1
+              have := nlStar_length r1
+              have h3 := nlStar_length r2
+              rw [hl] at h3
+              simp only [List.length_cons] at h3 ⊢
+              omega
+            · cases h
+          · cases h
+        · rename_i r1 _
+          have hls := layoutStar_length r1
+          cases h1 : argR false f (layoutStar r1) with
+          | out => rw [h1] at h; cases h
+          | fail =>
+            rw [h1] at h
+            simp only at h
+            split at h
+            · rename_i r4 hc
+              simp only [Res.ok.injEq, Prod.mk.injEq] at h
+              obtain ⟨_, rfl⟩ := h
+              have := callClose_length hc
+              simp only [List.length_cons]
+              omega
+            · cases h
+          | ok x =>
+            obtain ⟨a, r2⟩ := x
+            rw [h1] at h
+            simp only at h
+            len_site h2 : argsTailR false f r2, h
+            rename_i y; obtain ⟨more, r3⟩ := y
+            simp only at h
+            split at h
+            · rename_i r4 hc
+              simp only [Res.ok.injEq, Prod.mk.injEq] at h
+              obtain ⟨_, rfl⟩ := h
+              have := callClose_length hc
+              have := ih.a _ _ _ _ h1
+              have := ih.s _ _ _ _ h2
+              simp only [List.length_cons]
+              omega
+            · cases h
+        · rename_i r1 _
+          split at h
+          · rename_i r2 hid
+            simp only [Res.ok.injEq, Prod.mk.injEq] at h
+            obtain ⟨_, rfl⟩ := h
+            have := identifier_length hid
+            simp only [List.length_cons]
+            omega
+          · cases h
+        · cases h
+    · intro lst cs e r h
+      rw [argR_succ] at h
+      split at h
+      · rename_i r1 hl
+        have hll := lit_length hl
+        len_site h1 : exprR false f r1, h
+        rename_i x; obtain ⟨its, r2⟩ := x
+        simp only at h
+        split at h
+        · simp only [Res.ok.injEq, Prod.mk.injEq] at h
+          obtain ⟨_, rfl⟩ := h
+          have := ih.e _ _ _ _ h1
+          have := itemTrail_length r2
+          split <;> omega
+        · cases h
+      · len_site h1 : exprR false f cs, h
+        rename_i x; obtain ⟨its, r2⟩ := x
+        simp only at h
+        split at h
+        · simp only [Res.ok.injEq, Prod.mk.injEq] at h
+          obtain ⟨_, rfl⟩ := h
+          have := ih.e _ _ _ _ h1
+          have := itemTrail_length r2
+          split <;> omega
+        · cases h
+    · intro lst cs es r h
+      rw [argsTailR_succ] at h
+      split at h
+      · rename_i r0 hs
+        have hsk := skipWs_length cs
+        rw [hs] at hsk
+        simp only [List.length_cons] at hsk
+        have hls : (if lst then gapG r0 else layoutStar r0).length ≤ r0.length := by
+          split
+          · exact gapG_length r0
+          · exact layoutStar_length r0
+        cases h1 : argR lst f (if lst then gapG r0 else layoutStar r0) with
+        | out => rw [h1] at h; cases h
+        | fail =>
+          rw [h1] at h
+          simp only [Res.ok.injEq, Prod.mk.injEq] at h
+          obtain ⟨_, rfl⟩ := h
+          exact Nat.le_refl _
+        | ok x =>
+          obtain ⟨a, r1⟩ := x
+          rw [h1] at h
+          simp only at h
+          len_site h2 : argsTailR lst f r1, h
+          rename_i y; obtain ⟨more, r2⟩ := y
+          simp only [Res.ok.injEq, Prod.mk.injEq] at h
+          obtain ⟨_, rfl⟩ := h
+          have := ih.a _ _ _ _ h1
+          have := ih.s _ _ _ _ h2
+          omega
+      · simp only [Res.ok.injEq, Prod.mk.injEq] at h
+        obtain ⟨_, rfl⟩ := h
+        exact Nat.le_refl _
 
-theorem operandR_length {f cs its r} (h : operandR f cs = .ok (its, r)) :
-    r.length < cs.length := (lengths f).2.2 cs its r h
-
-theorem tailR_length {f cs its r} (h : tailR f cs = .ok (its, r)) :
-    r.length ≤ cs.length := (lengths f).2.1 cs its r h
-
-theorem exprR_length {f cs its r} (h : exprR f cs = .ok (its, r)) :
-    r.length < cs.length := (lengths f).1 cs its r h
+theorem exprR_length {lam f cs its r} (h : exprR lam f cs = .ok (its, r)) :
+    r.length < cs.length := (lengths f).e lam cs its r h
+theorem tailR_length {lam f cs its r} (h : tailR lam f cs = .ok (its, r)) :
+    r.length ≤ cs.length := (lengths f).t lam cs its r h
+theorem operandR_length {lam f cs its r} (h : operandR lam f cs = .ok (its, r)) :
+    r.length < cs.length := (lengths f).o lam cs its r h
+theorem termR_length {f cs e r} (h : termR f cs = .ok (e, r)) :
+    r.length < cs.length := (lengths f).m cs e r h
+theorem lamR_length {f cs e r} (h : lamR f cs = .ok (e, r)) :
+    r.length < cs.length := (lengths f).l cs e r h
+theorem condR_length {f cs e r} (h : condR f cs = .ok (e, r)) :
+    r.length < cs.length := (lengths f).c cs e r h
+theorem term2R_length {f cs e r} (h : term2R f cs = .ok (e, r)) :
+    r.length < cs.length := (lengths f).m2 cs e r h
+theorem postR_length {f cs its r} (h : postR f cs = .ok (its, r)) :
+    r.length ≤ cs.length := (lengths f).p cs its r h
+theorem postOpR_length {f cs it r} (h : postOpR f cs = .ok (it, r)) :
+    r.length < cs.length := (lengths f).q cs it r h
+theorem argR_length {lst f cs e r} (h : argR lst f cs = .ok (e, r)) :
+    r.length < cs.length := (lengths f).a lst cs e r h
+theorem argsTailR_length {lst f cs es r} (h : argsTailR lst f cs = .ok (es, r)) :
+    r.length ≤ cs.length := (lengths f).s lst cs es r h
 
 /-! ### the driver's fuel suffices -/
 
-theorem fuel_suffices (f : Nat) (cs : List Char) :
-    (2 * cs.length + 2 ≤ f → exprR f cs ≠ .out) ∧
-    (2 * cs.length + 1 ≤ f → operandR f cs ≠ .out) ∧
-    (2 * cs.length + 1 ≤ f → tailR f cs ≠ .out) := by
+/-- one call site of `fuel_suffices`: the recursive call does not run out (`pf`); "fail"
+    closes the goal where the caller fails too; the goal that remains is the `ok` case -/
+macro "fs_site " hn:ident " : " t:term " , " pf:term : tactic => `(tactic|
+  (cases $hn:ident : $t
+   case out => exact absurd $hn $pf
+   case fail => (first | exact Res.fail_ne_out | exact Res.ok_ne_out)
+   simp only))
+
+/-- ranks: a call on the SAME input goes to a function of smaller rank (`argR` 5 > `exprR` 4 >
+    `operandR` 3 > `termR` 2 > `condR`, `lamR`, `term2R` 1; `postR` 2 > `postOpR` 1), every other call
+    is on a shorter input -/
+structure FuelAll (f : Nat) (cs : List Char) : Prop where
+  e : ∀ lam, 8 * cs.length + 5 ≤ f → exprR lam f cs ≠ .out
+  t : ∀ lam, 8 * cs.length + 1 ≤ f → tailR lam f cs ≠ .out
+  o : ∀ lam, 8 * cs.length + 4 ≤ f → operandR lam f cs ≠ .out
+  m : 8 * cs.length + 3 ≤ f → termR f cs ≠ .out
+  l : 8 * cs.length + 2 ≤ f → lamR f cs ≠ .out
+  c : 8 * cs.length + 2 ≤ f → condR f cs ≠ .out
+  m2 : 8 * cs.length + 2 ≤ f → term2R f cs ≠ .out
+  p : 8 * cs.length + 2 ≤ f → postR f cs ≠ .out
+  q : 8 * cs.length + 1 ≤ f → postOpR f cs ≠ .out
+  a : ∀ lst, 8 * cs.length + 6 ≤ f → argR lst f cs ≠ .out
+  s : ∀ lst, 8 * cs.length + 1 ≤ f → argsTailR lst f cs ≠ .out
+
+theorem fuel_suffices (f : Nat) (cs : List Char) : FuelAll f cs := by
   induction f generalizing cs with
   | zero =>
-    refine ⟨?_, ?_, ?_⟩ <;> intro h <;> omega
+    refine ⟨?_, ?_, ?_, ?_, ?_, ?_, ?_, ?_, ?_, ?_, ?_⟩ <;> intros <;> omega
   | succ f ih =>
-    refine ⟨?_, ?_, ?_⟩
-    · intro hf
+    refine ⟨?_, ?_, ?_, ?_, ?_, ?_, ?_, ?_, ?_, ?_, ?_⟩
+    · intro lam hf
       rw [exprR_succ]
-      cases hop : operandR f cs with
-      | out => exact absurd hop ((ih cs).2.1 (by omega))
-      | fail => exact fun h => nomatch h
-      | ok x =>
-        obtain ⟨its, r⟩ := x
-        simp only
-        have hl := operandR_length hop
-        cases ht : tailR f r with
-        | out => exact absurd ht ((ih r).2.2 (by omega))
-        | fail => exact fun h => nomatch h
-        | ok y => exact fun h => nomatch h
-    · intro hf
-      rw [operandR_succ]
-      have hpre := prefixStar_length cs
-      split
-      · exact fun h => nomatch h
-      · split
-        · rename_i r1 hp
-          rw [hp] at hpre
-          simp only [List.length_cons] at hpre
-          have hl := layoutStar_length r1
-          cases he : exprR f (layoutStar r1) with
-          | out => exact absurd he ((ih _).1 (by omega))
-          | fail => exact fun h => nomatch h
-          | ok y =>
-            obtain ⟨its2, r2⟩ := y
-            simp only
-            split
-            · split
-              · exact fun h => nomatch h
-              · exact fun h => nomatch h
-            · exact fun h => nomatch h
-        · exact fun h => nomatch h
-    · intro hf
+      fs_site h1 : operandR lam f cs, ((ih cs).o lam (by omega))
+      rename_i x; obtain ⟨its, r⟩ := x
+      have := operandR_length h1
+      simp only
+      fs_site h2 : tailR lam f r, ((ih r).t lam (by omega))
+      exact Res.ok_ne_out
+    · intro lam hf
       rw [tailR_succ]
-      cases hi : infixUsage cs with
-      | none => exact fun h => nomatch h
+      cases hi : infixUsage lam cs with
+      | none => exact Res.ok_ne_out
       | some x =>
         obtain ⟨rule, r0⟩ := x
         simp only
         have h0 := infixUsage_length hi
-        cases hop : operandR f r0 with
-        | out => exact absurd hop ((ih r0).2.1 (by omega))
-        | fail => exact fun h => nomatch h
-        | ok x =>
-          obtain ⟨its, r⟩ := x
+        fs_site h1 : operandR lam f r0, ((ih r0).o lam (by omega))
+        rename_i x; obtain ⟨its, r⟩ := x
+        have := operandR_length h1
+        simp only
+        fs_site h2 : tailR lam f r, ((ih r).t lam (by omega))
+        exact Res.ok_ne_out
+    · intro lam hf
+      rw [operandR_succ]
+      have hpre := prefixStar_length cs
+      fs_site h1 : termR f (prefixStar cs).2, ((ih _).m (by omega))
+      rename_i x; obtain ⟨e, r⟩ := x
+      have := termR_length h1
+      simp only
+      fs_site h2 : postR f r, ((ih r).p (by omega))
+      exact Res.ok_ne_out
+    · intro hf
+      rw [termR_succ]
+      cases h0 : condR f cs with
+      | out => exact absurd h0 ((ih cs).c (by omega))
+      | ok x => exact Res.ok_ne_out
+      | fail =>
+        simp only
+        cases h1 : lamR f cs with
+        | out => exact absurd h1 ((ih cs).l (by omega))
+        | ok x => exact Res.ok_ne_out
+        | fail => exact (ih cs).m2 (by omega)
+    · intro hf
+      rw [lamR_succ]
+      split
+      · rename_i args r0 hh
+        have := lambdaHead_length hh
+        fs_site h1 : exprR true f r0, ((ih r0).e true (by omega))
+        split
+        · exact Res.ok_ne_out
+        · exact Res.fail_ne_out
+      · exact Res.fail_ne_out
+    · intro hf
+      rw [condR_succ]
+      split
+      · rename_i r1 hh
+        have := ifHead_length hh
+        fs_site h1 : exprR false f r1, ((ih r1).e false (by omega))
+        rename_i x; obtain ⟨its1, r2⟩ := x
+        have := exprR_length h1
+        simp only
+        split
+        · rename_i r3 hk1
+          have := kwGap_length hk1
+          fs_site h2 : exprR false f r3, ((ih r3).e false (by omega))
+          rename_i y; obtain ⟨its2, r4⟩ := y
+          have := exprR_length h2
           simp only
-          have hl := operandR_length hop
-          cases ht : tailR f r with
-          | out => exact absurd ht ((ih r).2.2 (by omega))
-          | fail => exact fun h => nomatch h
-          | ok y => exact fun h => nomatch h
+          split
+          · rename_i r5 hk2
+            have := kwGap_length hk2
+            fs_site h3 : exprR false f r5, ((ih r5).e false (by omega))
+            split
+            · exact Res.ok_ne_out
+            · exact Res.fail_ne_out
+          · exact Res.fail_ne_out
+        · exact Res.fail_ne_out
+      · exact Res.fail_ne_out
+    · intro hf
+      rw [term2R_succ]
+      split
+      · exact Res.ok_ne_out
+      · split
+        · rename_i r1 _
+          have := layoutStar_length r1
+          simp only [List.length_cons] at hf
+          fs_site h1 : exprR false f (layoutStar r1), ((ih _).e false (by omega))
+          split
+          · split
+            · exact Res.ok_ne_out
+            · exact Res.fail_ne_out
+          · exact Res.fail_ne_out
+        · rename_i r1 _
+          have := gapG_length r1
+          simp only [List.length_cons] at hf
+          cases h1 : argR true f (gapG r1) with
+          | out => exact absurd h1 ((ih _).a true (by omega))
+          | fail =>
+            simp only
+            split
+            · exact Res.ok_ne_out
+            · exact Res.fail_ne_out
+          | ok x =>
+            obtain ⟨a, r2⟩ := x
+            have := argR_length h1
+            simp only
+            fs_site h2 : argsTailR true f r2, ((ih r2).s true (by omega))
+            split
+            · exact Res.ok_ne_out
+            · exact Res.fail_ne_out
+        · exact Res.fail_ne_out
+    · intro hf
+      rw [postR_succ]
+      fs_site h1 : postOpR f cs, ((ih cs).q (by omega))
+      rename_i x; obtain ⟨it, r⟩ := x
+      have := postOpR_length h1
+      simp only
+      fs_site h2 : postR f r, ((ih r).p (by omega))
+      exact Res.ok_ne_out
+    · intro hf
+      rw [postOpR_succ]
+      split
+      · exact Res.ok_ne_out
+      · split
+        · rename_i r1 _
+          have := nlStar_length r1
+          simp only [List.length_cons] at hf
+          fs_site h1 : exprR false f (nlStar r1), ((ih _).e false (by omega))
+          split
+          · split
+            · exact Res.ok_ne_out
+            · exact Res.fail_ne_out
+          · exact Res.fail_ne_out
+        · rename_i r1 _
+          have := layoutStar_length r1
+          simp only [List.length_cons] at hf
+          cases h1 : argR false f (layoutStar r1) with
+          | out => exact absurd h1 ((ih _).a false (by omega))
+          | fail =>
+            simp only
+            split
+            · exact Res.ok_ne_out
+            · exact Res.fail_ne_out
+          | ok x =>
+            obtain ⟨a, r2⟩ := x
+            have := argR_length h1
+            simp only
+            fs_site h2 : argsTailR false f r2, ((ih r2).s false (by omega))
+            split
+            · exact Res.ok_ne_out
+            · exact Res.fail_ne_out
+        · split
+          · exact Res.ok_ne_out
+          · exact Res.fail_ne_out
+        · exact Res.fail_ne_out
+    · intro lst hf
+      rw [argR_succ]
+      split
+      · rename_i r1 hl
+        have := lit_length hl
+        fs_site h1 : exprR false f r1, ((ih r1).e false (by omega))
+        split
+        · exact Res.ok_ne_out
+        · exact Res.fail_ne_out
+      · fs_site h1 : exprR false f cs, ((ih cs).e false (by omega))
+        split
+        · exact Res.ok_ne_out
+        · exact Res.fail_ne_out
+    · intro lst hf
+      rw [argsTailR_succ]
+      split
+      · rename_i r0 hs
+        have hsk := skipWs_length cs
+        rw [hs] at hsk
+        simp only [List.length_cons] at hsk
+        have hls : (if lst then gapG r0 else layoutStar r0).length ≤ r0.length := by
+          split
+          · exact gapG_length r0
+          · exact layoutStar_length r0
+        fs_site h1 : argR lst f (if lst then gapG r0 else layoutStar r0),
+          ((ih _).a lst (by omega))
+        rename_i x; obtain ⟨a, r1⟩ := x
+        have := argR_length h1
+        simp only
+        fs_site h2 : argsTailR lst f r1, ((ih r1).s lst (by omega))
+        exact Res.ok_ne_out
+      · exact Res.ok_ne_out
 
-theorem exprR_fuel_suffices {f : Nat} {cs : List Char} {x} (hx : exprR f cs = .ok x) :
-    ∀ f', fuelFor cs ≤ f' → exprR f' cs = .ok x := by
+theorem exprR_fuel_suffices {lam : Bool} {f : Nat} {cs : List Char} {x}
+    (hx : exprR lam f cs = .ok x) : ∀ f', fuelFor cs ≤ f' → exprR lam f' cs = .ok x := by
   intro f' hf'
-  have hne : exprR f' cs ≠ .out := (fuel_suffices f' cs).1 hf'
+  have hne : exprR lam f' cs ≠ .out := (fuel_suffices f' cs).e lam (by unfold fuelFor at hf'; omega)
   rcases Nat.le_total f f' with hle | hle
   · exact exprR_mono hle hx
   · obtain ⟨k, rfl⟩ := Nat.exists_eq_add_of_le hle
     rw [exprR_add hne k] at hx
     exact hx
 
-theorem exprItems_of_exprR {f : Nat} {cs : List Char} {x} (hx : exprR f cs = .ok x) :
+theorem exprItems_of_exprR {f : Nat} {cs : List Char} {x} (hx : exprR false f cs = .ok x) :
     ∀ f', fuelFor cs ≤ f' → exprItems f' cs = some x := by
   intro f' hf'
   simp only [exprItems, exprR_fuel_suffices hx f' hf']
